@@ -207,6 +207,30 @@ def site_frame_go_extend(a, b, e):
     return list(a), f['x'].values, False, [], [(a.dtype, f['x'].values.dtype)]
 
 
+def site_frame_go_grown_row_values(a, b, e):
+    '''a FrameGO grown column by column: the row dtype kept by TypeBlocks.append decides how rows are consolidated'''
+    n = min(len(a), len(b))
+    f = sf.FrameGO.from_items((('x', a[:n]),))
+    f['y'] = b[:n]
+    return [a[0], b[0]], f.values[0], False, [], []          # a grown FrameGO falls back to object rows when the dtypes differ: no loss, so only the elements are compared
+
+
+def site_frame_go_grown_iter_rows(a, b, e):
+    n = min(len(a), len(b))
+    f = sf.FrameGO.from_items((('x', a[:n]),))
+    f.extend(sf.Frame.from_items((('y', b[:n]),)))
+    r = next(iter(f.iter_array(axis=1)))
+    return [a[0], b[0]], r, False, [], []
+
+
+def site_frame_go_grown_transpose(a, b, e):
+    n = min(len(a), len(b))
+    f = sf.FrameGO.from_items((('x', a[:n]),))
+    f['y'] = b[:n]
+    r = f.transpose().iloc[:, 0].values
+    return [a[0], b[0]], r, False, [], []
+
+
 def site_fillna(a, b, e):
     if a.dtype.kind not in 'fcMO':
         raise _Skip()
